@@ -36,10 +36,28 @@ def pick_world(rng, p_corpus=0.2, max_glyphs=12):
     return world.gen_family(rng, forbid=gen07.LEAKY, max_glyphs=max_glyphs)
 
 
+def pick_leaky_world(rng):
+    """Worlds that reach the call sites of the open source-mutation findings
+    (MATH pop, colour lib key, dotted-circle ensure_base).  Their output depends
+    on call *history* by those listed defects, so they are only used in
+    history-free cases (every step on fresh objects, no repeats, no faulted
+    attempts); every other dimension is still compared."""
+    if rng.random() < 0.25:
+        return {"corpus": [rng.choice(["TestMathFont-Regular.ufo", "ColorTest.ufo", "DottedCircleTest.ufo"])]}
+    force = rng.sample(gen07.LEAKY, rng.randint(1, 2))
+    if rng.random() < 0.6:
+        force.append("marks")
+    return world.gen_family(rng, force=force, max_glyphs=12)
+
+
 def gen_case(seed, profile=None):
     profile = profile or {}
     rng = random.Random(seed)
-    spec = pick_world(rng, p_corpus=profile.get("p_corpus", 0.2))
+    history_free = rng.random() < profile.get("p_history_free", 0.15)
+    if history_free:
+        spec = pick_leaky_world(rng)
+    else:
+        spec = pick_world(rng, p_corpus=profile.get("p_corpus", 0.2))
     cid = "c08-%d" % seed
     info = gen07.world_info(spec, key=cid)
     n = rng.randint(profile.get("min_steps", 2), profile.get("max_steps", 5))
@@ -52,11 +70,18 @@ def gen_case(seed, profile=None):
         # KF-C07-dottedcircle-ensure_base), which makes later output depend on
         # history by that listed defect: keep it out of the sampled C08 steps
         fl = s.get("opts", {}).get("filters")
-        if fl:
+        if fl and not history_free:
             s["opts"]["filters"] = [d for d in fl if not (isinstance(d, dict) and d.get("cls") == "DottedCircleFilter")]
+        if history_free:
+            # long-lived option objects would carry history between the steps
+            for key in ("filters", "featureWriters"):
+                for d in s.get("opts", {}).get(key, []) or []:
+                    if isinstance(d, dict):
+                        d.pop("ref", None)
         # shared long-lived option objects are part of the history dimension only:
         # keep refs (the same object may serve several steps of one variant)
     case = {"id": cid, "seed": seed, "world": {"spec": spec}, "sde": rng.choice(SDES), "steps": steps,
+            "history_free": history_free,
             "info": {"n_fonts": info["n_fonts"], "has_ds": info["has_ds"],
                      "lib_filters": info.get("lib_filters", [])}}
     return case, rng
@@ -98,14 +123,14 @@ def gen_variant(rng, case, vid, inc, extents):
     env = {"tz": rng.choice(gen07.TZS),
            "clock": {"start": rng.choice([0, 1, 1.7e9, 2.3e9, 4.2e9]),
                      "jumps": [rng.choice([0, 1, 37, 86400, -7200, 3.15e7]) for _ in range(3)]}}
-    fresh = rng.random() < 0.25
+    fresh = rng.random() < 0.25 or bool(case.get("history_free"))
     order = None
     if n > 1 and rng.random() < 0.5:
         order = list(range(n))
         rng.shuffle(order)
-    repeat = [i for i in range(n) if rng.random() < 0.25]
+    repeat = [i for i in range(n) if rng.random() < 0.25 and not case.get("history_free")]
     faulted = {}
-    if extents and rng.random() < 0.5:
+    if extents and rng.random() < 0.5 and not case.get("history_free"):
         for i in range(n):
             if rng.random() < 0.4:
                 ext = extents.get(i) or {}
@@ -113,7 +138,8 @@ def gen_variant(rng, case, vid, inc, extents):
                     faulted[str(i)] = {"kind": rng.choice(["trace", "trace", "mem"]),
                                        "at": rng.randint(1, ext["calls"]),
                                        "gran": "call"}
-    inplace = [i for i in range(n) if rng.random() < 0.15 and not varfea_anchor_gap(case, case["steps"][i])]
+    inplace = [i for i in range(n) if rng.random() < 0.15 and not varfea_anchor_gap(case, case["steps"][i])
+               and not case.get("history_free")]
     return {"vid": vid, "inc": inc, "mat": mat, "env": env, "fresh": fresh, "order": order,
             "repeat": repeat, "faulted": faulted, "inplace": inplace}
 
